@@ -72,11 +72,18 @@ def run(ctx):
             s3 = s1 + [i for i in rng.sample(range(5), 2) if i not in s1][:1] if rng.random() < 0.6 else s2
             if set(s3) != set(s1):
                 oreqs.append(("c11_macro_overlap", [pop, s1, s3, rng.randrange(2), True]))
+            if len(set(s1) & set(s2)) >= 1 and len(s1) >= 2:
+                oreqs.append(("c11_macro_overlap", [pop, s1, s2, rng.randrange(2), "shared"]))
         okinds = {}
         for rq, r in zip(oreqs, run_impl(oreqs)):
             what = None
             if isinstance(r, Err):
                 what = f"raised {r.kind}"
+            elif r[0] == "shared-refused":
+                what = "a macrostate over another member set, named after a member whose name no macrostate carries, was refused"
+            elif r[0] == "shared":
+                if r[1] or not r[2] or not r[3] or not r[4]:
+                    what = f"macrostate named after a member shared with a live macrostate: same object {r[1]}, name/representative ok {r[2]}, length ok {r[3]}, unequal {r[4]}"
             elif r[0] == "named":
                 if r[1] or r[2] or not r[3] or r[4] or r[6] != 2:
                     what = (f"macrostates over different member sets: same object {r[1]}, == {r[2]}, != {r[3]}, reversed == {r[4]}, "
